@@ -488,3 +488,15 @@ def run_property(prop, tier, report):
                    "recogniser; forbidden code points are placed in trivia, comments, strings and identifiers")
     cov["samples"] = [{"text": s.text[:300], "origin": s.origin} for s in sents[5:400:150]] + \
                      [{"mutant": d["text"][:200], "expect": d["expect"], "origin": d["origin"]} for d in docs if d.get("key") == "mutant"][3:5]
+    if prop == "C17":
+        # discovery is sufficient for resolution: every program of the WAC evaluator's state space
+        # (spec/Wac.tla) resolves the same with only the discovered packages as with all of them
+        from . import wac as wacmod
+        from .common import HARNESS, hbin, pipe_gz_to
+        path, wstats = wacmod.artefacts(tier)
+        f2, s2 = pipe_gz_to([hbin("wacreplay"), "--data", os.path.join(HARNESS, "data"), "--prop", "C17"], [path], timeout=7200)
+        report.add_findings(f2, "wacreplay-discovery")
+        cov["resolution_equivalence_checks"] = s2["discovery_checks"]
+        cov["resolution_equivalence_programs"] = s2["programs"]
+        cov["rule"] += ("; every program of spec/Wac.tla's state space (with and without a `targets` clause) is resolved "
+                        "once with all packages and once with only the packages wac_resolver::packages() reports: same outcome")
